@@ -979,7 +979,8 @@ impl World {
         Ok(())
     }
 
-    /// The interfaces imported implicitly through uses.
+    /// The interfaces imported implicitly through uses: by the world itself and
+    /// by the interfaces it imports or exports.
     pub fn implicit_imported_interfaces<'a>(
         &'a self,
         types: &'a Types,
@@ -996,10 +997,13 @@ impl World {
             add_interface_for_used_type(used_type);
         }
 
-        for (_, import) in self.imports.iter() {
-            if let ItemKind::Instance(interface_id) = import {
-                let import = &types[*interface_id];
-                for (_, used_item) in &import.uses {
+        // Types used by an imported or an exported interface come from an
+        // instance of the interface they are used from, which a component
+        // targeting this world has to import.
+        for (_, item) in self.imports.iter().chain(self.exports.iter()) {
+            if let ItemKind::Instance(interface_id) = item {
+                let interface = &types[*interface_id];
+                for (_, used_item) in &interface.uses {
                     add_interface_for_used_type(used_item);
                 }
             }
